@@ -160,12 +160,16 @@ pub proof fn lemma_kid_edges_seq<const K: usize>(ch: [Option<usize>; K], lo: int
 
 impl DfsEdge {
 //@fn src/tree/iter.rs | impl TraversalMut for DfsEdge | new
+//@bodysub DfsEdge { stack, last_push: 0, => let __r = DfsEdge { stack, last_push: 0,
+//@bodysub size_ub: tree.len().saturating_sub(1), } => size_ub: tree.len().saturating_sub(1), }; /*HINT-BEGIN*/proof { if tree.wf() { assert forall|h: Map<usize, nat>| #[trigger] ranked_down(tree.arena@, h) implies esize_ok(tree.arena@, h, __r.stack@, __r.size_lb, __r.size_ub) by { lemma_new_edges_size(tree.arena@, tree.root, h, root); assert(__r.size_ub + 1 == tree.arena@.dom().len()); assert(tree.root == Some(root) ==> __r.size_lb + 1 == tree.arena@.dom().len()); assert(tree.root != Some(root) ==> __r.size_lb == 0); } } }/*HINT-END*/ __r
 //@spec
     requires tree.root is Some, tree.arena@.dom().contains(root)
     ensures
         // the traversal starts with the edges leaving the given root (lowest label on top)
         r.stack@ == kid_edges(tree.arena@[root].children, 0, 1, root).reverse(),
         r.last_push == 0,
+        // the initial bounds bracket the number of edges to come: one per node below the start (lemma_edges_count)
+        tree.wf() ==> forall|h: Map<usize, nat>| #[trigger] ranked_down(tree.arena@, h) ==> esize_ok(tree.arena@, h, r.stack@, r.size_lb, r.size_ub),
 //@hint loop 1 before
         let ghost full = kid_edges(tree.arena@[root].children, 0, 1, root);
         proof { lemma_kid_edges_seq(tree.arena@[root].children, 0, 1, root); }
